@@ -125,6 +125,18 @@ def r3(ctx, r):
     ok, wit = common.same_section(w, la, fronts[0], pops[0], M)
     r.expect(ok and elem_dominates(w, fronts[0], pops[0]), w, pops[0], "dequeue not atomic", "front() and pop() are not one critical section: two workers can take the same task, or a task is popped unread",
              witness=wit, okdesc="worker: front()+pop() in one _mutex section")
+    # nobody else takes tasks out of the queue: the only other remover is reset(), which requires the Stopped state
+    for g in ctx.fb().in_file(FILE):
+        if not g.ok or g is w or not (g.cls == TP or g.name.startswith(TP + "::")):
+            continue
+        for e in g.stmts():
+            m = tasks_call(e.node, ("pop", "pop_front", "pop_back", "clear", "swap", "erase"))
+            if not m:
+                continue
+            r.instance()
+            owner = g.enclosing.name if g.kind == "lambda" and g.enclosing is not None else g.name
+            r.expect(owner == TP + "::reset", g, e, "task removed without being run", "%s removes a queued task with _tasks.%s(): an accepted task leaves the queue without being executed (its future, if any, reports "
+                     "broken_promise) — and std::queue::pop() removes the OLDEST entry, not the one just added" % (short(g.name), m), okdesc="reset(): queue cleared only in the Stopped state")
     calls = [e for (e, t) in common.fn_invocations(w) if show(t) == "task"]
     vocab = Vocab(["have", "ran", "twice", "nonempty"])
 
@@ -280,13 +292,29 @@ def r6(ctx, r):
     mk = [e for e in f.stmts() if e.node.get("k") == "call" and e.node.get("callee") == "std::make_shared" and "packaged_task" in e.node.get("t", "")]
     gf = [e for e in f.stmts() if e.node.get("k") == "mcall" and last(e.node.get("callee", "")) == "get_future"]
     enq = [e for e in f.stmts() if e.node.get("k") == "mcall" and e.node.get("callee") in (TP + "::enqueueImpl", TP + "::tryEnqueueImpl")]
-    r.expect(mk and gf and enq and elem_dominates(f, gf[0], enq[0]), f, None, "future protocol", "enqueueWithResult does not create a packaged_task, take its future and then queue the wrapper",
-             okdesc="packaged_task → get_future → enqueueImpl(wrapper)")
-    # the queued closure invokes the packaged task (exceptions are captured by it, not by the worker)
     lam = [lf for (ln, lf) in f.lambdas]
+    if not gf or not enq:
+        raise AnalysisBroken("enqueueWithResult: get_future / enqueueImpl not found")
+    r.expect(elem_dominates(f, gf[0], enq[0]), f, gf[0], "future taken after queueing", "the future is taken after the wrapper was queued: the task may already have run and released the shared state", okdesc="get_future before enqueueImpl(wrapper)")
     r.instance()
-    ok = any(any(x.get("k") == "opcall" and x.get("op") == "()" and "packaged_task" in x.get("callee", "") for x in lf.nodes.values()) for lf in lam)
-    r.expect(ok, f, None, "wrapper does not run the task", "the closure queued by enqueueWithResult does not invoke the packaged_task: the future never becomes ready", okdesc="queued closure invokes (*task)()")
+    if mk:
+        # packaged_task protocol: result and ANY exception are captured by the packaged_task itself
+        ok = any(any(x.get("k") == "opcall" and x.get("op") == "()" and "packaged_task" in x.get("callee", "") for x in lf.nodes.values()) for lf in lam)
+        r.expect(ok, f, None, "wrapper does not run the task", "the closure queued by enqueueWithResult does not invoke the packaged_task: the future never becomes ready", okdesc="queued closure invokes (*task)()")
+        return
+    # promise protocol: the wrapper must fulfil the promise on every path — value on return, the CURRENT exception in a catch-all
+    prom = [lf for lf in lam if any(x.get("k") == "mcall" and last(x.get("callee", "")) in ("set_value", "set_exception") for x in lf.nodes.values())]
+    if len(prom) != 1:
+        raise AnalysisBroken("enqueueWithResult: neither a packaged_task nor one promise-fulfilling wrapper — a protocol this rule does not know")
+    lf = prom[0]
+    setv = [e for e in lf.stmts() if e.node.get("k") == "mcall" and last(e.node.get("callee", "")) == "set_value"]
+    sete = [e for e in lf.stmts() if e.node.get("k") == "mcall" and last(e.node.get("callee", "")) == "set_exception"]
+    catch_all = [t for t in lf.trys.values() if any((h == "...") if isinstance(h, str) else (h.get("all") or h.get("t") in (None, "", "...")) for h in t.get("handlers", []))]
+    cur = any(x.get("k") == "call" and x.get("callee") == "std::current_exception" for e in sete for x in walk(e.node))
+    r.expect(bool(setv) and bool(sete) and bool(catch_all) and cur, f, (sete or setv or [None])[0], "task exception not delivered to the future",
+             "the promise-based wrapper queued by enqueueWithResult does not hand EVERY exception of the task to the future (set_exception(std::current_exception()) in a catch-all handler; found: %d set_value, %d set_exception, "
+             "catch-all %s): a task that throws something not derived from std::exception leaves the promise unfulfilled — the caller sees broken_promise instead of the task's exception"
+             % (len(setv), len(sete), "present" if catch_all else "missing"), okdesc="promise wrapper: set_value / catch(...) set_exception(current_exception())")
 
 
 def r7(ctx, r):
